@@ -262,3 +262,54 @@ pub fn c02_q_transport_any_length() {
     };
     assert!(got == Ok(plen), "C02: an honest transport message of a legal length was not delivered");
 }
+
+/// Honest delivery of a handshake message with a payload of ANY length that the 65535-byte limit allows (length
+/// symbolic; oracle cipher and lengths-only hash, no data moved): the write succeeds with exactly the specification's
+/// message length and the peer's read of those bytes returns the payload length; both advance. Un-keyed first message
+/// (NN), keyed message with an encrypted static key (XX message 2).
+pub fn honest_any_payload_length(pat: Pat, k: usize) {
+    use crate::stubs::*;
+    type P = Toy<8, 4, 4>;
+    // the output buffer has 16 bytes to spare beyond the largest message: snow reserves room for a tag even when the
+    // payload of an un-keyed message is sent in clear and refuses an exactly-sized buffer there (conservative, see C14)
+    const BIG: usize = 65535 + 16 + 1;
+    static ZEROS: [u8; BIG] = [0u8; BIG];
+    let pro: [u8; 2] = [5, 6];
+    let mut pair = rm_pair::<P>(pat, 0, NAME.as_bytes(), &pro);
+    rm_advance::<P>(&mut pair, k);
+    let (rmw, rmr) = if k % 2 == 0 { (pair.i, pair.r) } else { (pair.r, pair.i) };
+    let plen: usize = kani::any();
+    kani::assume(plen <= BIG);
+    let want = HsOps::<P>::msg_len(pat, 0, k, plen);
+    kani::assume(want <= 65535);
+    let mut buf = [0u8; BIG];
+    let mut out = [0u8; BIG];
+    let mut w = snow_from_rm_oracle::<4, 4>(&rmw, NAME, false);
+    unsafe {
+        O_COPY = false;
+    }
+    let n = w.write_message(&ZEROS[..plen], &mut buf);
+    kani::cover!(n.is_ok() && want > 65519, "C02 any-length handshake message within 16 bytes of the limit reachable");
+    assert!(n == Ok(want), "C02: an honest handshake write of a payload that fits the 65535-byte limit failed or returned a wrong length");
+    // the reader is built after the write: both endpoints share the oracle's object ids (no value flows through them)
+    let mut r = snow_from_rm_oracle::<4, 4>(&rmr, NAME, false);
+    unsafe {
+        O_COPY = false;
+        O_DEC_VERDICT[0] = true;
+    }
+    let got = r.read_message(&buf[..want], &mut out);
+    assert!(got == Ok(plen), "C02: an honest handshake message of maximal size was not delivered");
+    core::mem::forget(w);
+    core::mem::forget(r);
+}
+
+#[kani::proof]
+#[kani::unwind(34)]
+pub fn c02_q_nn_k0_any_payload_length() {
+    honest_any_payload_length(Pat::NN, 0);
+}
+#[kani::proof]
+#[kani::unwind(34)]
+pub fn c02_q_xx_k1_any_payload_length() {
+    honest_any_payload_length(Pat::XX, 1);
+}
